@@ -47,7 +47,21 @@ def compile(r: str):
 
         transitions[state_number].sort()
 
+    # The dead state is not reached when each input is the start of
+    # a match, as with '.*'. Add it then, the scanner needs its number:
+    null = expr.null
+    if null not in state_numbers:
+        state_number = state_numbers[null] = len(states)
+        states.append(null)
+        transitions.append(
+            sorted(
+                (first, last, state_number)
+                for derivative_class in null.derivative_classes()
+                for first, last in derivative_class.ranges
+            )
+        )
+
     accepts = [state.nullable() for state in states]
-    error = state_numbers[expr.null]
+    error = state_numbers[null]
 
     return transitions, accepts, error
